@@ -134,6 +134,16 @@ package processorqueue
 
 // The TTL scan only times requests out; it never changes the watch list or the expiry index, so a request that is busy
 // (claimed by the processor) when its expiry passes is still found by a later scan.
+// The watcher wakes up no later than the earliest deadline among the requests it watches - deadlines that have already
+// passed included (a request that was busy when its deadline passed must be looked at again at once, not a TTL later).
+//@ func (*RequestWatcher).recalculateNextExpireAt
+//@   prop C06
+//@   mode seq
+//@   requires watchOK(watcher) && watcher.clock != nil
+//@   modifies ovof(watcher.nextExpireAt), now
+//@   loop 1 modifies nothing
+//@   loop 1 invariant[earliest-so-far] forall(k, string, seen1[k] ==> nextExpiration.UnixNano() <= watcher.requestsExpireAt[k].UnixNano())
+//@   ensures[wakes-no-later-than-any-deadline] forall(k, string, in(k, watcher.requestsExpireAt) ==> atomicvalue(watcher.nextExpireAt).(time.Time).UnixNano() <= watcher.requestsExpireAt[k].UnixNano())
 //@ func (*RequestWatcher).notifyExpiredRequests
 //@   prop C06
 //@   mode seq
@@ -141,7 +151,6 @@ package processorqueue
 //@   modifies allof(Request.state), allof(Request.result), allof(Request.waitGroup), opall(Request.waitGroup), ovof(watcher.nextExpireAt), now
 //@   loop 1 modifies nothing
 //@   loop 2 modifies allof(Request.state), allof(Request.result), allof(Request.waitGroup), opall(Request.waitGroup)
-//@   loop 3 modifies nothing
 //@   loop 2 invariant[busy] forall(o, *Request, old(o.state) == requestProcessing ==> o.state == requestProcessing)
 //@   ghostlocal pos gmap[string]int
 //@   loop 1 do pos[requestID] = len(expiredRequestIDs) - 1
